@@ -10,6 +10,7 @@ import (
 	"os"
 	"path/filepath"
 	"sort"
+	"strconv"
 	"strings"
 	"sync/atomic"
 
@@ -105,11 +106,42 @@ func sortLogNamesOldToNew(dirEntries []os.DirEntry) []string {
 	//   audit.log  audit.log.1  audit.log.2  audit.log.3  audit.log.4
 	//   $ test-app /var/log/audit/
 	//   [audit.log.4 audit.log.3 audit.log.2 audit.log.1 audit.log]
+	//
+	// Rotated logs are compared by their numeric suffix, so that
+	// "audit.log.10" is older than "audit.log.9". Other names keep
+	// the plain string order.
 	sort.Slice(oldestToNew, func(i, j int) bool {
+		ni, iok := rotationNumber(oldestToNew[i])
+		nj, jok := rotationNumber(oldestToNew[j])
+		if iok && jok {
+			return ni > nj
+		}
+
 		return oldestToNew[i] > oldestToNew[j]
 	})
 
 	return oldestToNew
+}
+
+// rotationNumber returns N for a file name of the form "audit.log.N".
+func rotationNumber(name string) (int, bool) {
+	suffix := strings.TrimPrefix(name, "audit.log.")
+	if suffix == name || suffix == "" {
+		return 0, false
+	}
+
+	for _, r := range suffix {
+		if r < '0' || r > '9' {
+			return 0, false
+		}
+	}
+
+	n, err := strconv.Atoi(suffix)
+	if err != nil {
+		return 0, false
+	}
+
+	return n, true
 }
 
 // LogDirReader reads audit logs from a directory and tails the active
